@@ -199,7 +199,8 @@ def split_design(ctx):
     every property incl. termination; the structure without it (closing only from the last generation's hand-over) is
     shown to violate exit-after-written exactly when the model's last generation has no cells (self-test of the spec)."""
     notes = ctx.notes.setdefault("tlc", {})
-    for cfg in ("OwSimSplit_wait.cfg", "OwSimSplit_pinned.cfg"):
+    # (three generations; four; a pipe narrower / wider than a copier chunk; thorough: five generations)
+    for cfg in ("OwSimSplit_wait.cfg", "OwSimSplit_pinned.cfg", "OwSimSplit_wait4.cfg", "OwSimSplit_wait_c2.cfg", "OwSimSplit_wait_c4.cfg") + (() if ctx.quick else ("OwSimSplit_wait5.cfg",)):
         r = ctx.tlc("MCOwSimSplit", cfg=cfg, timeout=900)
         r.require_ok(cfg)
         ctx.cov["states"] += r.distinct
